@@ -260,7 +260,7 @@ class MinErrorFlow():
                 raise ValueError(f"Flow attribute '{self.flow_attr}' not found in edge data for edge {str((u, v))}, and this edge is not in the edges_to_ignore list.")
             
             # Getting the flow value of the edge            
-            f_u_v = data[self.flow_attr]
+            f_u_v = float(data[self.flow_attr])
             
             # Encoding the error on the edge (u, v) as the difference between 
             # the flow value of the edge and the sum of the weights of the paths that go through it (pi variables)
